@@ -105,6 +105,62 @@ func runDialCase(c *Ctx, sc *DialScenario, branch string, nontrivial bool) *Dial
 }
 
 func init() {
+	register(Suite{Name: "c07-redial", Property: "C07",
+		Rule: "two dials on ONE Client (Close in between): same policy / auth type / host, the server of the second dial differs (STARTTLS advertised or stripped, STARTTLS reply, handshake, advertised AUTH list); both dials compared with the Lean dial model, which knows no state carried from one dial to the next; byte tap and mechanism oracle on both; non-trivial = the two servers differ in encryption outcome",
+		Run: func(c *Ctx) {
+			n := c.N(800, 40000)
+			for i := 0; i < n; i++ {
+				r := c.Rng
+				d1 := c07dims{policy: r.Intn(3), auth: r.Intn(len(allAuthTypes)), host: r.Intn(2), adv: 1, authList: r.Intn(len(authLists))}
+				if r.Chance(50) {
+					d1.auth = 1 // auto-discovery
+				}
+				if r.Chance(15) {
+					d1.adv = 0
+				}
+				if r.Chance(15) {
+					d1.stReply = r.Intn(4)
+				} else if r.Chance(15) {
+					d1.hs = r.Intn(4)
+				}
+				d2 := d1
+				d2.adv, d2.stReply, d2.hs = r.Intn(2), 0, 0
+				if r.Chance(25) {
+					d2.stReply = r.Intn(4)
+				} else if r.Chance(25) {
+					d2.hs = r.Intn(4)
+				}
+				if r.Chance(40) {
+					d2.authList = r.Intn(len(authLists))
+				}
+				sc := d1.scenario()
+				sc.Redial = d2.scenario()
+				run := RunDial(sc)
+				if run.Panic != nil || (run.Second != nil && run.Second.Panic != nil) {
+					c.Violate("dial-panic", fmt.Sprintf("the client panicked: %v", run.Panic), sc)
+					continue
+				}
+				if run.Err != nil && strings.HasPrefix(run.Err.Error(), "config:") {
+					continue
+				}
+				first := *sc
+				first.Redial = nil
+				c.AddCase(Case{Line: first.modelLine(run), Want: run.wantLine(), Nontrivial: true, Branch: "first", Desc: sc})
+				oracleC07(c, &first, run)
+				if run.Second == nil {
+					continue
+				}
+				second := *sc.Redial
+				second.Redial = nil
+				c.AddCase(Case{Line: second.modelLine(run.Second), Want: run.Second.wantLine(), Nontrivial: d1.adv != d2.adv || d1.authList != d2.authList,
+					Branch: fmt.Sprintf("second adv %d->%d", d1.adv, d2.adv), Desc: sc})
+				oracleC07(c, &second, run.Second)
+				if run.Second.Err == nil {
+					_ = run.Client.Close()
+				}
+			}
+		}})
+
 	register(Suite{Name: "c07-policy", Property: "C07",
 		Rule: "the finite table TLS policy {mandatory, opportunistic, none} x 13 auth types x host {other, localhost} x STARTTLS advertised or not x STARTTLS reply {220, 4yz, 5yz, garbage} x handshake {ok, wrong-name certificate, untrusted certificate, garbage} x 5 advertised AUTH lists, with real TLS handshakes in process; byte tap of everything written before TLS; event traces compared with the Lean dial model; quick tier samples the table, thorough enumerates it; non-trivial = TLS or AUTH attempted",
 		Run: func(c *Ctx) {
